@@ -55,6 +55,18 @@ impl<T> Out<T> {
     }
 }
 
+pub trait MapOut<T> {
+    fn map<U>(self, f: impl FnOnce(T) -> U) -> Out<U>;
+}
+impl<T> MapOut<T> for Out<T> {
+    fn map<U>(self, f: impl FnOnce(T) -> U) -> Out<U> {
+        match self {
+            Out::Ok(v) => Out::Ok(f(v)),
+            o => o.cast(),
+        }
+    }
+}
+
 pub const CALL_BOUND: i64 = 5 * SEC;
 
 /// Await an API call; `Hang` if it does not reply within 5 s of virtual time.
